@@ -3,7 +3,9 @@
      PARAFAC2 drivers with respect to normalisation) and the HOOI skeleton of tucker / partial_tucker (Model/StructureHooi.v),
    - over an arbitrary commutative ring with conjugation (Proofs/StructureConj.v; R and C = R x R are instances): the Tucker canonical form
      for real and complex data -- unitary factors, core = projection with the CONJUGATE transpose, for tensors of every order,
-   - over R, matrices given as functions nat -> nat -> R with explicit dimensions (Proofs/StructureProofsR.v, StructureNormR.v).
+   - over R, matrices given as functions nat -> nat -> R with explicit dimensions (Proofs/StructureProofsR.v, StructureNormR.v),
+   - (round 8) the shape flow of the loops of tensor_ring_als (Model/StructureTrAls.v: cyclic sub-chain contraction, design-matrix reshape, least-squares
+     solve; needs the closed rank list) and of coupled_matrix_tensor_3d_factorization (Model/StructureCmtf.v), for every cap and stopping path.
    `_partial` = holds under the named extra hypothesis; `_refuted` = witnesses that the hypothesis is needed (here only for control flows
    before repairs in /repo, named `_old_` / `before_<commit>`, kept as regression witnesses). *)
 From Coq Require Import List Arith ZArith QArith Reals Bool Lia.
@@ -1140,3 +1142,29 @@ Example C08_tensor_ring_als_loop_ex :
   tr_als_update [2; 3; 4] [2; 3; 5; 3] (trals_cores [2; 3; 4] [2; 3; 5; 3]) 0 = Err /\
   tr_als_sweep_log [2; 3] [2; 3; 2] [0; 1] (trals_cores [2; 3] [2; 3; 2]) = Ok [([3; 6], [3; 2]); ([2; 6], [2; 3])].
 Proof. vm_compute. repeat split; reflexivity. Qed.
+
+(* ================================================================== round 8: the loop of coupled_matrix_tensor_3d_factorization at the level of shapes *)
+(* Model/StructureCmtf.v transcribes one sweep as coded: V from lstsq(A, matrix), then for ii = 2, 1, 0 the Khatri-Rao product of the other factors,
+   for ii = 0 stacked on V and the unfolding extended by the matrix, and the least-squares solve; every step fails where NumPy would raise.  For every
+   third-order shape, matrix width, rank specification accepted by validate_cp_rank, iteration cap >= 1 and stopping path: no step fails, the factor
+   shapes I_k x r are invariant and the result is the structure of the one-line model cmtf (C08_cmtf_structure), now derived from the loop; the matrix
+   part's first factor is the tensor part's (same I_0 x r).  With n_iter_max = 0 the code never binds V: the call raises (model: Err; reported, the
+   harness does not generate this case for the loop comparison) *)
+From TLV Require Import Model.StructureCmtf Proofs.StructureCmtfProofs.
+Local Open Scope nat_scope.
+Theorem C08_cmtf_loop_structure : forall I0 I1 I2 m spec n_iter_max decisions r,
+  validate_cp_rank [I0; I1; I2] spec RRound = Ok r -> 1 <= n_iter_max ->
+  cmtf_run [I0; I1; I2] m spec n_iter_max decisions = Ok (cp_shapes [I0; I1; I2] r ++ cp_shapes [I0; m] r) /\
+  cmtf [I0; I1; I2] m spec = Ok (cp_shapes [I0; I1; I2] r ++ cp_shapes [I0; m] r).
+Proof. exact cmtf_run_structure. Qed.
+Print Assumptions C08_cmtf_loop_structure.
+(* the four least-squares systems of a sweep: V from an I_0 x r system with m right-hand sides; factor 2 / 1 from (I_0 I_1) / (I_0 I_2) x r systems; the
+   coupled factor 0 from an (I_1 I_2 + m) x r system with I_0 right-hand sides (tensor unfolding and matrix side by side) *)
+Theorem C08_cmtf_sweep_systems : forall I0 I1 I2 m r, cmtf_sweep [I0; I1; I2] [I0; m] [[I0; r]; [I1; r]; [I2; r]] =
+  Ok ([([I0; r], [I0; m]); ([I0 * (I1 * 1); r], [I0 * (I1 * 1); I2]); ([I0 * (I2 * 1); r], [I0 * (I2 * 1); I1]);
+       ([I1 * (I2 * 1) + m; r], [I1 * (I2 * 1) + m; I0])], [m; r], [[I0; r]; [I1; r]; [I2; r]]).
+Proof. exact cmtf_sweep_ok. Qed.
+Print Assumptions C08_cmtf_sweep_systems.
+Example C08_cmtf_loop_ex : cmtf_run [3; 4; 5] 6 (RInt 2) 2 [false; true] = Ok [[2]; [3; 2]; [4; 2]; [5; 2]; [2]; [3; 2]; [6; 2]] /\
+  cmtf_sweep [3; 4; 5] [2; 6] [[3; 2]; [4; 2]; [5; 2]] = Err.
+Proof. exact cmtf_run_ex. Qed.
